@@ -213,7 +213,7 @@ def run_case(case):
                 un = (min(b[0] for b in allb), min(b[1] for b in allb), max(b[2] for b in allb), max(b[3] for b in allb))
                 c["v0_base_bounds_checked"] = c.get("v0_base_bounds_checked", 0) + 1
                 smax = max(l.sigma for l in got_layers)
-                if base is None or max(base[0] - un[0], base[1] - un[1], un[2] - base[2], un[3] - base[3]) > 1.0 * smax + 0.01:
+                if base is None or max(base[0] - un[0], base[1] - un[1], un[2] - base[2], un[3] - base[3]) > (0.5 + 0.001 * built.cfg.upem) * smax + 0.5 + max(l.err for l in got_layers) + 0.01:
                     mech = None
                     if fmt.startswith("cff") and max(un[2] - un[0], un[3] - un[1]) > 32000:
                         mech = "F12-cff-charstring-delta-overflow"
